@@ -51,6 +51,10 @@ void ep2_pck(ep2_t r, const ep2_t p) {
         bn_hlv(halfQ, halfQ);
 
         fp_prime_back(yValue, p->y[1]);
+        /* Same sign rule as ep2_upk(): the sign of y_0 if y_1 is zero. */
+        if (bn_is_zero(yValue)) {
+            fp_prime_back(yValue, p->y[0]);
+        }
 
         int b = bn_cmp(yValue, halfQ) == RLC_GT;
 
